@@ -330,3 +330,185 @@ Qed.
 
 Theorem transpose_0d_refuted : legal_transpose [] 0 0 /\ fwd_transpose [] 0 0 = None.
 Proof. split. split; discriminate. reflexivity. Qed.
+
+(* ------------------------------------------------------------------ unfold *)
+Lemma unfold_args_accepts sh dimension size step :
+  unfold_args sh dimension size step <> None <->
+  exists d, norm_axis (length sh) dimension = Some d /\ (0 < size)%Z /\ (0 < step)%Z /\ (size <= Z.of_nat (nth d sh 0%nat))%Z.
+Proof.
+  split.
+  - destruct (unfold_args sh dimension size step) as [[[d sz] st]|] eqn:Ua; try contradiction. intros _.
+    apply unfold_args_some in Ua as (N & _ & Hsz & Hst & Hle & E1 & E2). exists d. repeat split; auto; lia.
+  - intros (d & N & Hsz & Hst & Hle). unfold unfold_args. unfold norm_axis in N. set (n := Z.of_nat (length sh)) in *.
+    destruct (Z.leb_spec 0 dimension); destruct (Z.ltb_spec dimension n); destruct (Z.ltb_spec dimension 0);
+      destruct (Z.leb_spec (- n) dimension); simpl in N; try discriminate; try lia; injection N as <-.
+    + destruct (Z.geb_spec dimension n); try lia. simpl.
+      destruct (Z.leb_spec size 0); try lia. destruct (Z.leb_spec step 0); try lia.
+      destruct (Z.ltb_spec (Z.of_nat (nth (Z.to_nat dimension) sh 0%nat)) size); try lia. destruct (Z.ltb_spec dimension (- n)); try lia. discriminate.
+    + destruct (Z.geb_spec dimension n); try lia. simpl.
+      destruct (Z.leb_spec size 0); try lia. destruct (Z.leb_spec step 0); try lia.
+      destruct (Z.ltb_spec (Z.of_nat (nth (Z.to_nat (dimension + n)) sh 0%nat)) size); try lia. destruct (Z.ltb_spec dimension (- n)); try lia. discriminate.
+Qed.
+
+Theorem unfold_accepts_iff_legal_partial sh dimension size step :
+  sh <> [] -> (fwd_unfold_dim sh dimension size step <> None <-> legal_unfold sh dimension size step).
+Proof.
+  intros Hne. assert (Hn : length sh <> 0) by (destruct sh; simpl; congruence).
+  transitivity (unfold_args sh dimension size step <> None).
+  { unfold fwd_unfold_dim. destruct (unfold_args sh dimension size step) as [[[d sz] st]|]; split; auto; discriminate. }
+  rewrite unfold_args_accepts. unfold legal_unfold. rewrite <- (norm_wrap (length sh) dimension Hn).
+  split; intros (d & N & H1 & H2 & H3); exists d; repeat split; auto;
+    pose proof (norm_axis_lt _ _ _ N); rewrite (nth_indep sh 0 1) in * by auto; auto.
+Qed.
+
+Theorem unfold_matches_spec sh dimension size step op :
+  fwd_unfold_dim sh dimension size step = Some op -> spec_unfold sh dimension size step op.
+Proof.
+  intros F. destruct (fwd_unfold_closed _ _ _ _ _ F) as (d & sz & st & pre & L & post & Ua & Esh & Lp & Hsz & Hst & Hle & Ei & Eo & Phi).
+  apply unfold_args_some in Ua as (N & Hd & _ & _ & _ & E1 & E2).
+  assert (Hn : length sh <> 0) by lia. rewrite norm_wrap in N by auto.
+  exists d, pre, L, post. subst size step. rewrite !Nat2Z.id. repeat split; auto.
+Qed.
+
+Theorem unfold_0d_refuted : legal_unfold [] 0 1 1 /\ fwd_unfold_dim [] 0 1 1 = None.
+Proof. split. exists 0. repeat split; simpl; lia. reflexivity. Qed.
+
+(* ------------------------------------------------------------------ masks vs. selected positions *)
+Definition sel_from {X} (a : nat) (keep : nat -> bool) (l : list X) : list X :=
+  map snd (filter (fun p => keep (fst p)) (combine (seq a (length l)) l)).
+
+Lemma sel_from_ext {X} a keep keep' (l : list X) :
+  (forall k, a <= k < a + length l -> keep k = keep' k) -> sel_from a keep l = sel_from a keep' l.
+Proof.
+  intros E. unfold sel_from. f_equal. apply filter_ext_in. intros [k x] Hin. simpl.
+  apply in_combine_l in Hin. apply in_seq in Hin. now apply E.
+Qed.
+
+Lemma sel_from_cons {X} a keep (x : X) l :
+  sel_from a keep (x :: l) = if keep a then x :: sel_from (S a) keep l else sel_from (S a) keep l.
+Proof. unfold sel_from. cbn [length seq combine filter fst]. destruct (keep a); reflexivity. Qed.
+
+Lemma drop_mask_sel {X} mask : forall (l : list X) a, length mask = length l ->
+  drop_mask mask l = sel_from a (fun k => negb (nth (k - a) mask false)) l.
+Proof.
+  induction mask as [|b m IH]; intros [|x l] a HL; simpl in HL; try discriminate; auto.
+  rewrite sel_from_cons.
+  assert (R : sel_from (S a) (fun k => negb (nth (k - a) (b :: m) false)) l = drop_mask m l).
+  { rewrite (IH l (S a)) by lia. apply sel_from_ext. intros k Hk.
+    replace (k - a) with (S (k - S a)) by lia. reflexivity. }
+  rewrite R. rewrite Nat.sub_diag. destruct b; reflexivity.
+Qed.
+
+Lemma select_positions_sel {X} keep (l : list X) : select_positions keep l = sel_from 0 keep l.
+Proof. reflexivity. Qed.
+
+Lemma select_positions_ext {X} keep keep' (l : list X) :
+  (forall k, k < length l -> keep k = keep' k) -> select_positions keep l = select_positions keep' l.
+Proof. intros E. rewrite !select_positions_sel. apply sel_from_ext. intros k Hk. apply E. lia. Qed.
+
+Lemma drop_mask_select {X} mask (l : list X) : length mask = length l ->
+  drop_mask mask l = select_positions (fun k => negb (nth k mask false)) l.
+Proof.
+  intros HL. rewrite (drop_mask_sel mask l 0 HL). rewrite select_positions_sel. apply sel_from_ext.
+  intros k Hk. now rewrite Nat.sub_0_r.
+Qed.
+
+Lemma sel_from_all {X} a keep (l : list X) : (forall k, a <= k < a + length l -> keep k = true) -> sel_from a keep l = l.
+Proof.
+  revert a. induction l as [|x l IH]; intros a E. reflexivity.
+  rewrite sel_from_cons. rewrite (E a) by (simpl; lia). f_equal.
+  apply IH. intros k Hk. apply E. simpl. lia.
+Qed.
+
+Lemma select_positions_all {X} keep (l : list X) : (forall k, k < length l -> keep k = true) -> select_positions keep l = l.
+Proof. intros E. rewrite select_positions_sel. apply sel_from_all. intros k Hk. apply E. lia. Qed.
+
+(* ------------------------------------------------------------------ squeeze *)
+Lemma norm_axes_map n l ks : norm_axes n l = Some ks -> forall k, In k ks <-> exists z, In z l /\ norm_axis n z = Some k.
+Proof.
+  revert ks. induction l as [|z l IH]; intros ks E k; simpl in E.
+  - inversion E; subst. simpl. split. tauto. intros (z & [] & _).
+  - destruct (norm_axis n z) as [k0|] eqn:Ez; try discriminate.
+    destruct (norm_axes n l) as [r|] eqn:El; try discriminate. inversion E; subst. simpl. rewrite (IH r eq_refl). split.
+    + intros [<-|(z' & Hz & Ez')]. exists z. auto. exists z'. auto.
+    + intros (z' & [<-|Hz] & Ez'). left. congruence. right. eauto.
+Qed.
+
+Lemma norm_axes_filter n (P : Z -> bool) l ks : norm_axes n l = Some ks -> exists ks', norm_axes n (filter P l) = Some ks'.
+Proof.
+  revert ks. induction l as [|z l IH]; intros ks E; simpl in *. eauto.
+  destruct (norm_axis n z) as [k0|] eqn:Ez; try discriminate.
+  destruct (norm_axes n l) as [r|] eqn:El; try discriminate.
+  destruct (IH r eq_refl) as (ks' & E'). destruct (P z); simpl; eauto. rewrite Ez, E'. eauto.
+Qed.
+
+Lemma sq_selected_tuple n l k : n <> 0 ->
+  sq_selected n (SqTuple l) k = true <-> exists z, In z l /\ norm_axis n z = Some k.
+Proof.
+  intros Hn. unfold sq_selected. cbn [sq_dims]. rewrite existsb_exists. split.
+  - intros (z & Hz & E). exists z. split; auto. rewrite norm_wrap by auto.
+    destruct (wrap_dim n z) as [k'|]; try discriminate. apply Nat.eqb_eq in E. now subst.
+  - intros (z & Hz & E). exists z. split; auto. rewrite norm_wrap in E by auto. rewrite E. apply Nat.eqb_refl.
+Qed.
+
+Lemma bool_eq_iff (a b : bool) : (a = true <-> b = true) -> a = b.
+Proof. destruct a, b; intuition congruence. Qed.
+
+Lemma np_squeeze_some_shape sh l op ks :
+  np_squeeze sh (Some l) = Some op -> norm_axes (length sh) l = Some ks ->
+  g_out op = select_positions (fun k => negb (memb k ks)) sh.
+Proof.
+  unfold np_squeeze. intros E N. rewrite N in E.
+  destruct (nodupb ks); simpl in E; try discriminate.
+  destruct (forallb (fun k => nth k sh 0 =? 1) ks); simpl in E; try discriminate.
+  inversion E; subst; clear E. cbn [g_out]. rewrite drop_mask_select by (now rewrite mask_of_length).
+  apply select_positions_ext. intros k Hk. now rewrite mask_of_nth.
+Qed.
+
+Theorem squeeze_matches_spec sh arg op : fwd_squeeze sh arg = Some op -> spec_squeeze sh arg op.
+Proof.
+  intros F. destruct (fwd_squeeze_order_preserving _ _ _ F) as (Ei & OP & _).
+  unfold spec_squeeze. split; auto. split; auto. unfold spec_squeeze_shape.
+  unfold fwd_squeeze in F. destruct arg as [|z|l].
+  - (* None *)
+    destruct (Nat.eqb_spec (length sh) 0) as [E0|E0].
+    + injection F as <-. destruct sh; try discriminate. reflexivity.
+    + unfold np_squeeze in F. injection F as <-. cbn [g_out].
+      rewrite drop_mask_select by (now rewrite map_length). apply select_positions_ext.
+      intros k Hk. unfold sq_selected. cbn [sq_dims]. cbn [andb]. f_equal.
+      change false with ((fun d => d =? 1) 0). now rewrite map_nth.
+  - (* int *)
+    destruct (Nat.eqb_spec (length sh) 0) as [E0|E0].
+    + injection F as <-. destruct sh; try discriminate. reflexivity.
+    + destruct (norm_axis (length sh) z) as [k0|] eqn:Ez; try discriminate.
+      assert (Sel : forall k, sq_selected (length sh) (SqInt z) k = (k0 =? k)).
+      { intros k. unfold sq_selected. cbn [sq_dims existsb]. rewrite <- norm_wrap by auto. rewrite Ez. now rewrite orb_false_r. }
+      destruct (Nat.eqb_spec (nth k0 sh 0) 1) as [E1|E1].
+      * rewrite (np_squeeze_some_shape sh [z] op [k0] F) by (simpl; now rewrite Ez).
+        apply select_positions_ext. intros k Hk. f_equal. rewrite Sel. unfold memb. cbn [existsb]. rewrite orb_false_r.
+        destruct (Nat.eqb_spec k k0) as [->|Hne]. rewrite Nat.eqb_refl. simpl. symmetry. now apply Nat.eqb_eq.
+        destruct (Nat.eqb_spec k0 k); try congruence. reflexivity.
+      * injection F as <-. cbn [g_out id_op]. symmetry. apply select_positions_all.
+        intros k Hk. rewrite Sel. destruct (Nat.eqb_spec k0 k) as [<-|]; auto. simpl.
+        destruct (Nat.eqb_spec (nth k0 sh 0) 1); auto; contradiction.
+  - (* tuple *)
+    destruct (norm_axes (length sh) l) as [ks|] eqn:En; try discriminate.
+    destruct (Nat.eqb_spec (length sh) 0) as [E0|E0].
+    + destruct sh; try discriminate. destruct l as [|z l]. injection F as <-. reflexivity.
+      simpl in En. rewrite norm_axis_0d in En. discriminate.
+    + set (P := fun z => match norm_axis (length sh) z with Some k => nth k sh 0 =? 1 | None => false end) in *.
+      assert (Key : forall k, k < length sh ->
+                (exists z, In z (filter P l) /\ norm_axis (length sh) z = Some k) <->
+                sq_selected (length sh) (SqTuple l) k && (nth k sh 0 =? 1) = true).
+      { intros k Hk. rewrite andb_true_iff, sq_selected_tuple by auto. split.
+        - intros (z & Hz & Ez). apply filter_In in Hz as [Hz Pz]. unfold P in Pz. rewrite Ez in Pz. split; eauto.
+        - intros [(z & Hz & Ez) E1]. exists z. split; auto. apply filter_In. split; auto. unfold P. now rewrite Ez. }
+      destruct (filter P l) as [|z0 l0] eqn:Fl.
+      * injection F as <-. cbn [g_out id_op]. symmetry. apply select_positions_all. intros k Hk.
+        destruct (sq_selected (length sh) (SqTuple l) k && (nth k sh 0 =? 1)) eqn:X; auto.
+        apply Key in X; auto. destruct X as (z & [] & _).
+      * rewrite <- Fl in *. destruct (norm_axes_filter (length sh) P l ks En) as (ks' & En').
+        rewrite (np_squeeze_some_shape sh (filter P l) op ks' F En').
+        apply select_positions_ext. intros k Hk. f_equal. apply bool_eq_iff.
+        rewrite memb_In, (norm_axes_map _ _ _ En'). now apply Key.
+Qed.
